@@ -5,6 +5,7 @@
     interpretation of literals, identifiers, abundances, intrinsic functions and exponentiation. *)
 From Coq Require Import List Arith Bool String Ascii Reals.
 From Naunet Require Import Lib.ListX Lib.PyStr Model.CExpr Model.Krome Proofs.KromeProofs.
+From NaunetGen Require Import Tables.
 Import ListNotations.
 
 (* soundness of the validator *)
@@ -44,3 +45,9 @@ Theorem pow_assoc_refuted :
     denoteN (fun _ => 0%R) val (fun _ => 0%R) (fun _ _ => 0%R) pw c = 64%R.
 Proof. exact pow_assoc_refuted_lemma. Qed.
 Print Assumptions pow_assoc_refuted.
+
+(* tie to the current /repo (probe regenerated on every run): the expression
+   grammar does not read 'Te+2.5' as one identifier (Te+2.5**2*T32-1.0) *)
+Theorem live_grammar_identifier_unsigned : krome_identifier_unsigned = true.
+Proof. reflexivity. Qed.
+Print Assumptions live_grammar_identifier_unsigned.
